@@ -78,7 +78,7 @@ impl<'a> Analysis<'a> {
                         }
                     }
                 }
-                Ev::Sent { msg: WMsg::Close, .. } | Ev::Recv { msg: WMsg::Close, .. } | Ev::RecvEnd { .. } | Ev::Fault(_) | Ev::TaskExit { .. } | Ev::SinkClosed { .. } => {
+                Ev::Sent { msg: WMsg::Close, .. } | Ev::Recv { msg: WMsg::Close, .. } | Ev::RecvEnd { .. } | Ev::Fault(_) | Ev::TaskExit { .. } | Ev::SinkClosed { .. } | Ev::SinkErrorSeen { .. } => {
                     conn_end_at.get_or_insert(idx);
                 }
                 Ev::Recv { msg: WMsg::Invalid(_), .. } => {
@@ -173,6 +173,9 @@ impl<'a> Analysis<'a> {
     pub fn integrity(&self) -> Result<(), V> {
         for (st, a) in self.run.app_events() {
             match a {
+                AppEv::DataMismatch { stream, .. } if *stream >= self.streams.len() => {
+                    // a stream opened by the raw peer outside the case description: its content is not modelled
+                }
                 AppEv::DataMismatch { stream, end, offset, got, want } => {
                     return Err((
                         "c02-data-mismatch".into(),
@@ -189,7 +192,11 @@ impl<'a> Analysis<'a> {
             for end in 0..2 {
                 let rd = &s.ends[end];
                 let wr = &s.ends[1 - end];
+                let writer_is_raw = self.case.raw.is_some() && side_of_end(&self.case.streams[i], 1 - end) == 1;
                 for (idx, tot) in &rd.reads {
+                    if writer_is_raw {
+                        break;
+                    }
                     let w = wr.written_before(*idx);
                     if *tot > w {
                         return Err(("c02-read-ahead".into(), format!("stream {i} end {end}: {tot} bytes read but only {w} bytes accepted by completed writes at that moment")));
